@@ -268,12 +268,32 @@ def unchecked_offset(ctx, fb, T):
                 ctx.inst(R, key, True, 'forwarding impl of offset_unchecked', c.loc())
             elif guards_call(f, c.bb, 're:::index_valid$', truth=True) or _then_some_valid(f, c):
                 ctx.inst(R, key, True, 'result is used only under a positive index_valid() test', c.loc())
+            elif _dense_storage_guard(f, c.bb):
+                # weak checking: only the offset is bounds-checked (by Storage::get). That is sound exactly when every storage
+                # element belongs to this view - otherwise an out-of-shape index can land on an element of a sibling view
+                # (split_at_mut along an inner axis interleaves the halves' storage ranges)
+                ctx.inst(R, key, True, 'used only under `layout.len() == data.len()`: every in-range offset is an element of this view (the offset itself is bounds-checked by Storage::get)', c.loc())
             else:
                 r = rev.get(f.path)
                 ctx.inst(R, key, r is not None, ('reviewed: ' + r) if r else
                          'safe function calls offset_unchecked without an index_valid() test: an out-of-range index yields an offset outside the view (or inside another view of the same storage)', c.loc())
     ctx.floor(R, 'callers of offset_unchecked', n, 6)
 
+
+
+def _dense_storage_guard(f, bb):
+    """a dominating `Layout::len(..) == Storage::len(..)` comparison (true edge)"""
+    for (op, a, b, g) in normalized_cmps(f, bb):
+        if op != 'Eq':
+            continue
+        oa, ob = f.origins(a), f.origins(b)
+        def is_layout_len(og):
+            return any(o[0] == 'call' and re.search(r'Layout>?::len$', o[1] or '') for o in og)
+        def is_storage_len(og):
+            return any(o[0] == 'call' and re.search(r'Storage>?::len$', o[1] or '') for o in og)
+        if (is_layout_len(oa) and is_storage_len(ob)) or (is_layout_len(ob) and is_storage_len(oa)):
+            return True
+    return False
 
 
 def dyn_rank(ctx, fb, T):
